@@ -123,16 +123,19 @@ Definition is_str_const (e : expr) : bool := match e with Const (CStr _) => true
 Definition kw_names_param (ps : list param) (kwn : list (option string)) : bool :=
   existsb (fun k => existsb (fun p => ostr_eqb k (Some (p_name p))) ps) kwn.
 
+(* the environment in which the grammar reads the body of an immediately called lambda: nothing is assumed of
+   what its parameters are bound to (they hide the outer names and are not known to be untyped) *)
+Definition shadow (ps : list string) (G : tenv) : tenv := bind_params ps (map (fun _ => TOpaque "parameter") ps) G.
+
 Section Grammar.
   Variable W : world.
-  Variable G : tenv.
 
   (* receivers whose type is certainly unknown *)
-  Fixpoint untyped_shape (e : expr) : bool :=
+  Fixpoint untyped_shape (G : tenv) (e : expr) : bool :=
     match e with
     | Name x => is_any (name_type W G x)
-    | Attr u _ => untyped_shape u
-    | Subscript u _ => untyped_shape u
+    | Attr u _ => untyped_shape G u
+    | Subscript u _ => untyped_shape G u
     | _ => false
     end.
 
@@ -144,33 +147,33 @@ Section Grammar.
     | Some fn => Nat.leb (length (f_params fn)) (length args) || negb (kw_names_param (f_params fn) kwn)
     end.
 
-  Fixpoint expr_grammar (e : expr) : bool :=
-    let all := fix all (l : list expr) : bool := match l with [] => true | x :: xs => expr_grammar x && all xs end in
+  Fixpoint expr_grammar (G : tenv) (e : expr) {struct e} : bool :=
+    let all := fix all (l : list expr) : bool := match l with [] => true | x :: xs => expr_grammar G x && all xs end in
     match e with
     | Name _ | Const _ | Raw _ => true
     | Lambda _ _ => true                        (* nested lambdas are not entered on an untyped object *)
-    | Attr v _ => expr_grammar v
+    | Attr v _ => expr_grammar G v
     | Call f args kwn kwv =>
-        expr_grammar f && all args && all kwv && Nat.eqb (length kwn) (length kwv) &&
+        expr_grammar G f && all args && all kwv && Nat.eqb (length kwn) (length kwv) &&
         match f with
-        | Subscript (Attr v _) _ => untyped_shape v          (* residual of F21, see Properties/C10.v *)
+        | Subscript (Attr v _) _ => untyped_shape G v          (* residual of F21, see Properties/C10.v *)
         | Name x => fn_call_ok x args kwn
-        | Lambda ps _ => negb (called_ok ps args kwn kwv)    (* an immediately called lambda that binds all its
-                                                                parameters is followed (F45): its body would have to
-                                                                be in the grammar under another environment; such
-                                                                calls are left to the correspondence (see C10.v) *)
+        | Lambda ps b =>                                     (* an immediately called lambda that binds all its
+                                                                parameters is followed (F45): its body is in the
+                                                                grammar, the parameters hiding the outer names *)
+            if called_ok ps args kwn kwv then expr_grammar (shadow ps G) b else true
         | _ => true
         end
-    | UnaryOp _ x => expr_grammar x
-    | BinOp _ x y => expr_grammar x && expr_grammar y
+    | UnaryOp _ x => expr_grammar G x
+    | BinOp _ x y => expr_grammar G x && expr_grammar G y
     | BoolOp _ xs => all xs
-    | Compare x _ xs => expr_grammar x && all xs
-    | IfExp c t f => expr_grammar c && expr_grammar t && expr_grammar f
+    | Compare x _ xs => expr_grammar G x && all xs
+    | IfExp c t f => expr_grammar G c && expr_grammar G t && expr_grammar G f
     | Tuple xs | List xs => all xs
     | Dict ks vs => forallb is_str_const ks && all vs && Nat.eqb (length ks) (length vs)   (* arbitrary string keys *)
-    | Subscript v s => expr_grammar v && expr_grammar s
-    | ListComp x gs | GenExp x gs => expr_grammar x && all gs
-    | CompFor t i fs _ => expr_grammar t && expr_grammar i && all fs
+    | Subscript v s => expr_grammar G v && expr_grammar G s
+    | ListComp x gs | GenExp x gs => expr_grammar G x && all gs
+    | CompFor t i fs _ => expr_grammar G t && expr_grammar G i && all fs
     | Other _ _ cs => all cs
     end.
 End Grammar.
@@ -254,11 +257,62 @@ Proof.
   destruct (IH vs) as [H1 H2]; [congruence|]. cbn in H1, H2. rewrite H1, H2. split; reflexivity.
 Qed.
 
+(* ---------- size of a sub-expression (the induction measure: a called lambda's body is followed in another
+   environment) ---------- *)
+
+Fixpoint tsizes (l : list expr) : nat := match l with [] => 0 | x :: xs => size x + tsizes xs end.
+
+Lemma tsize_sizes e : size e = S (tsizes (children e)).
+Proof.
+  assert (Hs : forall l, (fix sizes (l : list expr) : nat :=
+                            match l with [] => 0 | x :: xs => size x + sizes xs end) l = tsizes l).
+  { induction l; simpl; auto. }
+  assert (Happ : forall l1 l2, tsizes (l1 ++ l2) = tsizes l1 + tsizes l2).
+  { induction l1; simpl; intros; auto. rewrite IHl1; lia. }
+  destruct e; simpl; rewrite ?Hs; try rewrite (Hs kwv); try rewrite (Hs vs); rewrite ?Happ; simpl; lia.
+Qed.
+
+Lemma tsize_child e c : In c (children e) -> size c < size e.
+Proof.
+  intros H. rewrite (tsize_sizes e).
+  assert (X : forall l, In c l -> size c <= tsizes l).
+  { induction l; simpl; intros Hl; [contradiction|]. destruct Hl as [->|Hl]; [lia|]. apply IHl in Hl; lia. }
+  apply X in H. lia.
+Qed.
+
+(* ---------- environments ---------- *)
+
+Definition simple_env (G : tenv) : Prop := Forall (fun xt => simple (snd xt)) G.
+
+(* whatever the grammar's environment [Gg] takes for untyped is untyped in the environment [G] of the follower *)
+Definition env_le (W : world) (Gg G : tenv) : Prop :=
+  forall x, is_any (name_type W Gg x) = true -> name_type W G x = TAny.
+
+Lemma env_le_refl W G : env_le W G G.
+Proof. intros x H. destruct (name_type W G x); try discriminate. reflexivity. Qed.
+
+Lemma env_le_bind W Gg G ps : forall ts,
+  env_le W Gg G -> length ps = length ts -> env_le W (shadow ps Gg) (bind_params ps ts G).
+Proof.
+  unfold shadow. induction ps as [|p ps IH]; intros [|t ts] Hle Hl; try discriminate; [exact Hle|].
+  cbn [map bind_params]. intros x. unfold name_type. cbn [assoc].
+  destruct (String.eqb p x); [discriminate|].
+  apply (IH ts Hle). cbn in Hl. congruence.
+Qed.
+
+Lemma simple_env_bind G ps : forall ts,
+  simple_env G -> Forall simple ts -> simple_env (bind_params ps ts G).
+Proof.
+  induction ps as [|p ps IH]; intros [|t ts] HG Hts; cbn [bind_params]; try exact HG.
+  inversion Hts; subst. constructor; [assumption | apply IH; assumption].
+Qed.
+
 Section Untyped.
   Variable W : world.
-  Variable G : tenv.
+  Variable Gg G : tenv.        (* the environment the grammar is read in, the environment of the follower *)
   Hypothesis Hft : ft_plain (w_ft W).
   Hypothesis HG : Forall (fun xt => simple (snd xt)) G.
+  Hypothesis Hle : env_le W Gg G.
   Let ft := w_ft W.
   Notation fx := (follow_x W G).
   Notation fl := (follow_list_with (follow_x W G)).
@@ -335,7 +389,7 @@ Section Untyped.
 
   (* visit_Attribute on a simple-typed value *)
   Lemma attr_type_good v a tv aux :
-    expr_grammar W G (Attr v a) = true -> simple tv -> Forall simple aux ->
+    expr_grammar W Gg (Attr v a) = true -> simple tv -> Forall simple aux ->
     match attr_type W a v tv aux with
     | Ok t => simple t
     | Refuse r => site ft r (Attr v a)
@@ -412,7 +466,7 @@ Section Untyped.
   Qed.
 
   Lemma untyped_visited_shape v :
-    untyped_shape W G v = true -> forall v' t aux ev, fx v = Ok (v', t, aux, ev) ->
+    untyped_shape W Gg v = true -> forall v' t aux ev, fx v = Ok (v', t, aux, ev) ->
     match v' with Dict _ _ | Tuple _ => False | _ => True end.
   Proof.
     destruct v; cbn [untyped_shape]; intros Hu v' t aux ev E; try discriminate.
@@ -425,10 +479,10 @@ Section Untyped.
   Qed.
 
   Lemma untyped_is_any v :
-    untyped_shape W G v = true -> forall v' t aux ev, fx v = Ok (v', t, aux, ev) -> t = TAny /\ aux = [].
+    untyped_shape W Gg v = true -> forall v' t aux ev, fx v = Ok (v', t, aux, ev) -> t = TAny /\ aux = [].
   Proof.
     induction v; cbn [untyped_shape]; intros Hu v' t aux ev E; try discriminate.
-    - rewrite fx_Name in E. inversion E; subst. destruct (name_type W G id); try discriminate. auto.
+    - rewrite fx_Name in E. inversion E; subst. rewrite (Hle _ Hu). auto.
     - rewrite fx_Attr in E. apply bind_ok in E. destruct E as ([[[v1 t1] aux1] ev1] & E1 & E2).
       destruct (IHv Hu _ _ _ _ E1) as [-> ->].
       pose proof (untyped_visited_shape v Hu _ _ _ _ E1) as Hs.
@@ -452,15 +506,24 @@ Section Untyped.
     | _ => True
     end.
 
-  Definition P (e : expr) : Prop := expr_grammar W G e = true -> good e (fx e) /\ subgood e.
+  (* the measure: bodies of called lambdas smaller than [n] are already known to be good, in every environment *)
+  Variable n : nat.
+  Hypothesis Hbody : forall Gg' G' b,
+    size b < n -> simple_env G' -> env_le W Gg' G' -> expr_grammar W Gg' b = true -> good b (follow_x W G' b).
+
+  Definition P (e : expr) : Prop := size e <= n -> expr_grammar W Gg e = true -> good e (fx e) /\ subgood e.
 
   Lemma P_list es :
-    Forall P es -> Forall (fun x => expr_grammar W G x = true) es -> Forall (fun x => good x (fx x)) es.
+    Forall P es -> (forall x, In x es -> size x <= n) ->
+    Forall (fun x => expr_grammar W Gg x = true) es -> Forall (fun x => good x (fx x)) es.
   Proof.
-    induction 1 as [|x xs Hx _ IH]; intros Hg; constructor; inversion Hg; subst.
-    - apply Hx; assumption.
-    - apply IH; assumption.
+    induction 1 as [|x xs Hx _ IH]; intros Hs Hg; constructor; inversion Hg; subst.
+    - apply Hx; [apply Hs; left; reflexivity | assumption].
+    - apply IH; [intros y Hy; apply Hs; right; exact Hy | assumption].
   Qed.
+
+  Lemma child_le e c : size e <= n -> In c (children e) -> size c <= n.
+  Proof. intros H Hc. pose proof (tsize_child e c Hc). lia. Qed.
 
   Ltac split_gram H :=
     repeat match type of H with
@@ -509,11 +572,13 @@ Section Untyped.
 
   Theorem follow_good : forall e, P e.
   Proof.
-    induction e using expr_ind'; intros Hg.
+    induction e using expr_ind'; intros Hsz Hg;
+      match type of Hsz with size ?E <= _ => pose proof (child_le E) as Hc; specialize (fun c => Hc c Hsz) end;
+      cbn [children] in Hc.
     - (* Name *) rewrite fx_Name. fin.
     - (* Const *) rewrite fx_Const. fin.
     - (* Attr *)
-      cbn [expr_grammar] in Hg. destruct (IHe Hg) as [Hv _]. split; [|exact Hv].
+      cbn [expr_grammar] in Hg. destruct (IHe (Hc _ (or_introl eq_refl)) Hg) as [Hv _]. split; [|exact Hv].
       rewrite fx_Attr.
       apply (step_child (Attr e a) e _ (good (Attr e a))); [cbn; auto | exact Hv | intros r Hr; exact Hr |].
       intros t aux Ht Ha Hl E. cbv beta iota.
@@ -524,10 +589,12 @@ Section Untyped.
       destruct (andb_prop _ _ Hg) as [Hg4 Hg3]. destruct (andb_prop _ _ Hg4) as [Hg5 Hg0].
       destruct (andb_prop _ _ Hg5) as [Hg6 Hg1]. destruct (andb_prop _ _ Hg6) as [Hgf Hg2]. clear Hg4 Hg5 Hg6.
       apply grammar_all in Hg2. apply grammar_all in Hg1.
-      pose proof (P_list _ H Hg2) as Ha. pose proof (P_list _ H0 Hg1) as Hk.
+      assert (Hsa : forall x, In x args -> size x <= n) by (intros x Hx; apply Hc; right; apply in_or_app; auto).
+      assert (Hsk : forall x, In x kwv -> size x <= n) by (intros x Hx; apply Hc; right; apply in_or_app; auto).
+      pose proof (P_list _ H Hsa Hg2) as Ha. pose proof (P_list _ H0 Hsk Hg1) as Hk.
       apply Nat.eqb_eq in Hg0.
       split; [|exact I].
-      destruct (IHe Hgf) as [Hf Hsub].
+      destruct (IHe (Hc _ (or_introl eq_refl)) Hgf) as [Hf Hsub].
       set (E := Call e args kwn kwv).
       pose proof (callee_cases e) as Hcases.
       destruct Hcases as [(v & a & ->)|[(v & a & s & ->)|[(ps & b & ->)|Hplain]]].
@@ -574,13 +641,27 @@ Section Untyped.
           -- cbn. apply Hin. eapply designed_child; [|exact Hs]. cbn; auto.
         * cbn. apply Hin. apply (designed_child r (Subscript (Attr v a) s) (Attr v a)); [cbn; auto|].
           apply (designed_child r (Attr v a) v); [cbn; auto | exact Hv].
-      + (* an immediately called lambda that does not bind its parameters positionally: left alone *)
+      + (* an immediately called lambda: left alone when it does not bind its parameters positionally; otherwise
+           its body is followed with the parameters bound to the (plain) types of the arguments *)
         unfold E. rewrite fx_Call_lambda.
         apply (step_list E args _ (good E)); [apply incl_app_l | exact Ha | intros r Hr; exact Hr |].
-        intros ts1 _ _. cbv beta iota.
+        intros ts1 Hts1 Hl1. cbv beta iota.
         apply (step_list E kwv _ (good E)); [apply incl_app_r | exact Hk | intros r Hr; exact Hr |].
         intros ts2 _ _. cbv beta iota.
-        apply negb_true_iff in Hg3. rewrite Hg3. fin.
+        destruct (called_ok ps args kwn kwv) eqn:Eok; [|fin].
+        assert (Hlen : length ps = length ts1).
+        { unfold called_ok in Eok. repeat (apply andb_true_iff in Eok; destruct Eok as [Eok ?]).
+          apply Nat.eqb_eq in Eok. congruence. }
+        assert (Hsb : size b < n).
+        { pose proof (tsize_child (Lambda ps b) b (or_introl eq_refl)).
+          pose proof (Hc (Lambda ps b) (or_introl eq_refl)). lia. }
+        pose proof (Hbody (shadow ps Gg) (bind_params ps ts1 G) b Hsb
+                          (simple_env_bind G ps ts1 HG Hts1) (env_le_bind W Gg G ps ts1 Hle Hlen) Hg3) as Hb.
+        unfold good in Hb.
+        destruct (follow_x W (bind_params ps ts1 G) b) as [[[[b' tb] auxb] evb]|r|kk]; cbn [bind]; try contradiction.
+        * destruct Hb as (-> & -> & Htb & _). fin.
+        * cbn. apply (designed_child r E (Lambda ps b)); [cbn; auto|].
+          apply (designed_child r (Lambda ps b) b); [cbn; auto | exact Hb].
       + (* any other callee *)
         unfold E. rewrite fx_Call_plain by exact Hplain.
         apply (step_child E e _ (good E)); [cbn; auto | exact Hf | intros r Hr; exact Hr |].
@@ -597,13 +678,13 @@ Section Untyped.
         * apply good_refuse_here. exact Hp.
     - (* Lambda *) rewrite fx_Lambda. fin.
     - (* UnaryOp *)
-      cbn [expr_grammar] in Hg. destruct (IHe Hg) as [Hv _]. split; [|exact I].
+      cbn [expr_grammar] in Hg. destruct (IHe (Hc _ (or_introl eq_refl)) Hg) as [Hv _]. split; [|exact I].
       rewrite fx_UnaryOp.
       apply (step_child (UnaryOp o e) e _ (good (UnaryOp o e))); [cbn; auto | exact Hv | intros r Hr; exact Hr |].
       intros t aux Ht _ _ _. cbv beta iota. rewrite unary_uses_lookup_on. cbn. fin. destruct o; auto; reflexivity.
     - (* BinOp *)
       cbn [expr_grammar] in Hg. destruct (andb_prop _ _ Hg) as [Hga Hgb].
-      destruct (IHe1 Hga) as [H1 _]. destruct (IHe2 Hgb) as [H2 _]. split; [|exact I].
+      destruct (IHe1 ltac:(apply Hc; cbn; auto) Hga) as [H1 _]. destruct (IHe2 ltac:(apply Hc; cbn; auto) Hgb) as [H2 _]. split; [|exact I].
       rewrite fx_BinOp. set (E := BinOp o e1 e2).
       apply (step_child E e1 _ (good E)); [cbn; auto | exact H1 | intros r Hr; exact Hr |].
       intros t1 aux1 Ht1 _ _ _. cbv beta iota.
@@ -612,14 +693,14 @@ Section Untyped.
       unfold binop_type. destruct (is_any t1 || is_any t2); [reflexivity|].
       destruct (ty_eqb t1 TFloat || ty_eqb t2 TFloat); [reflexivity|]. destruct o; reflexivity.
     - (* BoolOp *)
-      cbn [expr_grammar] in Hg. apply grammar_all in Hg. pose proof (P_list _ H Hg) as Ha. split; [|exact I].
+      cbn [expr_grammar] in Hg. apply grammar_all in Hg. pose proof (P_list _ H Hc Hg) as Ha. split; [|exact I].
       rewrite fx_BoolOp. set (E := BoolOp o es).
       apply (step_list E es _ (good E)); [cbn; apply incl_refl | exact Ha | intros r Hr; exact Hr |].
       intros ts _ _. cbv beta iota. fin.
     - (* Compare *)
       cbn [expr_grammar] in Hg. destruct (andb_prop _ _ Hg) as [Hga Hg0].
-      apply grammar_all in Hg0. pose proof (P_list _ H Hg0) as Ha.
-      destruct (IHe Hga) as [H1 _]. split; [|exact I].
+      apply grammar_all in Hg0. pose proof (P_list _ H (fun x Hx => Hc x (or_intror Hx)) Hg0) as Ha.
+      destruct (IHe (Hc _ (or_introl eq_refl)) Hga) as [H1 _]. split; [|exact I].
       rewrite fx_Compare. set (E := Compare e ops rs).
       apply (step_child E e _ (good E)); [cbn; auto | exact H1 | intros r Hr; exact Hr |].
       intros t1 aux1 _ _ _ _. cbv beta iota.
@@ -627,7 +708,8 @@ Section Untyped.
       intros ts _ _. cbv beta iota. fin.
     - (* IfExp *)
       cbn [expr_grammar] in Hg. destruct (andb_prop _ _ Hg) as [Hgab Hgc]. destruct (andb_prop _ _ Hgab) as [Hga Hgb].
-      destruct (IHe1 Hga) as [H1 _]. destruct (IHe2 Hgb) as [H2 _]. destruct (IHe3 Hgc) as [H3 _]. split; [|exact I].
+      destruct (IHe1 ltac:(apply Hc; cbn; auto) Hga) as [H1 _]. destruct (IHe2 ltac:(apply Hc; cbn; auto) Hgb) as [H2 _].
+      destruct (IHe3 ltac:(apply Hc; cbn; auto) Hgc) as [H3 _]. split; [|exact I].
       rewrite fx_IfExp. set (E := IfExp e1 e2 e3).
       apply (step_child E e1 _ (good E)); [cbn; auto | exact H1 | intros r Hr; exact Hr |].
       intros t1 aux1 _ _ _ _. cbv beta iota.
@@ -639,19 +721,19 @@ Section Untyped.
       destruct (numeric_or_any t2 && numeric_or_any t3); [fin|].
       apply good_refuse_here. exact I.
     - (* Tuple *)
-      cbn [expr_grammar] in Hg. apply grammar_all in Hg. pose proof (P_list _ H Hg) as Ha. split; [|exact I].
+      cbn [expr_grammar] in Hg. apply grammar_all in Hg. pose proof (P_list _ H Hc Hg) as Ha. split; [|exact I].
       rewrite fx_Tuple. set (E := Tuple es).
       apply (step_list E es _ (good E)); [cbn; apply incl_refl | exact Ha | intros r Hr; exact Hr |].
       intros ts Hts Hl. cbv beta iota. fin.
     - (* List *)
-      cbn [expr_grammar] in Hg. apply grammar_all in Hg. pose proof (P_list _ H Hg) as Ha. split; [|exact I].
+      cbn [expr_grammar] in Hg. apply grammar_all in Hg. pose proof (P_list _ H Hc Hg) as Ha. split; [|exact I].
       rewrite fx_List. set (E := List es).
       apply (step_list E es _ (good E)); [cbn; apply incl_refl | exact Ha | intros r Hr; exact Hr |].
       intros ts _ _. cbv beta iota. fin.
     - (* Dict *)
       cbn [expr_grammar] in Hg. destruct (andb_prop _ _ Hg) as [Hgkv Hg0]. destruct (andb_prop _ _ Hgkv) as [Hgk Hg1].
       clear Hg. rename Hgk into Hg. apply grammar_all in Hg1.
-      pose proof (P_list _ H0 Hg1) as Hv. apply Nat.eqb_eq in Hg0.
+      pose proof (P_list _ H0 (fun x Hx => Hc x (in_or_app _ _ _ (or_intror Hx))) Hg1) as Hv. apply Nat.eqb_eq in Hg0.
       split; [|exact I].
       assert (Hkeys : Forall (fun x => good x (fx x)) ks).
       { clear -Hg. induction ks as [|k r IH]; constructor; cbn in Hg; apply andb_true_iff in Hg; destruct Hg as [Hk Hr].
@@ -677,7 +759,7 @@ Section Untyped.
       destruct Hd as (t & -> & Ht). cbn [bind]. fin.
     - (* Subscript *)
       cbn [expr_grammar] in Hg. destruct (andb_prop _ _ Hg) as [Hga Hgb].
-      destruct (IHe1 Hga) as [H1 Hs1]. destruct (IHe2 Hgb) as [H2 _].
+      destruct (IHe1 ltac:(apply Hc; cbn; auto) Hga) as [H1 Hs1]. destruct (IHe2 ltac:(apply Hc; cbn; auto) Hgb) as [H2 _].
       split; [| destruct e1; cbn; auto ].
       rewrite fx_Subscript. set (E := Subscript e1 e2).
       apply (step_child E e1 _ (good E)); [cbn; auto | exact H1 | intros r Hr; exact Hr |].
@@ -690,8 +772,8 @@ Section Untyped.
       destruct (subscript_type W e1 t1 aux1 e2); cbn [bind]; [fin | apply good_refuse_here; exact Hst | contradiction].
     - (* ListComp *)
       cbn [expr_grammar] in Hg. destruct (andb_prop _ _ Hg) as [Hga Hg0].
-      apply grammar_all in Hg0. pose proof (P_list _ H Hg0) as Ha.
-      destruct (IHe Hga) as [H1 _]. split; [|exact I].
+      apply grammar_all in Hg0. pose proof (P_list _ H (fun x Hx => Hc x (or_intror Hx)) Hg0) as Ha.
+      destruct (IHe (Hc _ (or_introl eq_refl)) Hga) as [H1 _]. split; [|exact I].
       rewrite fx_ListComp. set (E := ListComp e gs).
       apply (step_child E e _ (good E)); [cbn; auto | exact H1 | intros r Hr; exact Hr |].
       intros t1 aux1 _ _ _ _. cbv beta iota.
@@ -699,8 +781,8 @@ Section Untyped.
       intros ts _ _. cbv beta iota. fin.
     - (* GenExp *)
       cbn [expr_grammar] in Hg. destruct (andb_prop _ _ Hg) as [Hga Hg0].
-      apply grammar_all in Hg0. pose proof (P_list _ H Hg0) as Ha.
-      destruct (IHe Hga) as [H1 _]. split; [|exact I].
+      apply grammar_all in Hg0. pose proof (P_list _ H (fun x Hx => Hc x (or_intror Hx)) Hg0) as Ha.
+      destruct (IHe (Hc _ (or_introl eq_refl)) Hga) as [H1 _]. split; [|exact I].
       rewrite fx_GenExp. set (E := GenExp e gs).
       apply (step_child E e _ (good E)); [cbn; auto | exact H1 | intros r Hr; exact Hr |].
       intros t1 aux1 _ _ _ _. cbv beta iota.
@@ -708,8 +790,8 @@ Section Untyped.
       intros ts _ _. cbv beta iota. fin.
     - (* CompFor *)
       cbn [expr_grammar] in Hg. destruct (andb_prop _ _ Hg) as [Hgab Hg0]. destruct (andb_prop _ _ Hgab) as [Hga Hgb].
-      apply grammar_all in Hg0. pose proof (P_list _ H Hg0) as Ha.
-      destruct (IHe1 Hga) as [H1 _]. destruct (IHe2 Hgb) as [H2 _]. split; [|exact I].
+      apply grammar_all in Hg0. pose proof (P_list _ H (fun x Hx => Hc x (or_intror (or_intror Hx))) Hg0) as Ha.
+      destruct (IHe1 ltac:(apply Hc; cbn; auto) Hga) as [H1 _]. destruct (IHe2 ltac:(apply Hc; cbn; auto) Hgb) as [H2 _]. split; [|exact I].
       rewrite fx_CompFor. set (E := CompFor e1 e2 ifs a).
       apply (step_child E e1 _ (good E)); [cbn; auto | exact H1 | intros r Hr; exact Hr |].
       intros t1 aux1 _ _ _ _. cbv beta iota.
@@ -719,12 +801,24 @@ Section Untyped.
       intros ts _ _. cbv beta iota. fin.
     - (* Raw *) rewrite fx_Raw. fin.
     - (* Other *)
-      cbn [expr_grammar] in Hg. apply grammar_all in Hg. pose proof (P_list _ H Hg) as Ha. split; [|exact I].
+      cbn [expr_grammar] in Hg. apply grammar_all in Hg. pose proof (P_list _ H Hc Hg) as Ha. split; [|exact I].
       rewrite fx_Other. set (E := Other cls atoms cs).
       apply (step_list E cs _ (good E)); [cbn; apply incl_refl | exact Ha | intros r Hr; exact Hr |].
       intros ts _ _. cbv beta iota. fin.
   Qed.
 End Untyped.
+
+(* the measure is discharged by induction: bodies of called lambdas are smaller than the call *)
+Lemma follow_good_all W (Hft : ft_plain (w_ft W)) : forall n Gg G e,
+  simple_env G -> env_le W Gg G -> size e <= n -> expr_grammar W Gg e = true ->
+  good W e (follow_x W G e) /\ subgood W G e.
+Proof.
+  induction n as [|n IH]; intros Gg G e HG Hle Hsz Hg.
+  - apply (follow_good W Gg G Hft HG Hle 0); [|exact Hsz | exact Hg].
+    intros Gg' G' b Hb. lia.
+  - apply (follow_good W Gg G Hft HG Hle (S n)); [|exact Hsz | exact Hg].
+    intros Gg' G' b Hb HG' Hle' Hg'. apply (IH Gg' G' b HG' Hle'); [lia | exact Hg'].
+Qed.
 
 (* ---------- the statements exported by Properties/C10.v ---------- *)
 
@@ -752,7 +846,8 @@ Lemma untyped_passthrough_x W G e :
   | Crash _ => False
   end.
 Proof.
-  intros Hft HG Hg. destruct (follow_good W G Hft HG e Hg) as [H _]. unfold follow, good in *.
+  intros Hft HG Hg. destruct (follow_good_all W Hft (S (size e)) G G e HG (env_le_refl W G) (Nat.le_succ_diag_r _) Hg) as [H _].
+  unfold follow, good in *.
   destruct (follow_x W G e) as [[[[e' t] aux] ev]|r|k]; cbn [bind]; auto.
   destruct H as (-> & -> & Ht & _). auto.
 Qed.
